@@ -134,3 +134,99 @@ theorem withObj_ok (cfg : Cfg) (calls0 : List Call) (r : Bytes) (n : Nat) (k : B
   unfold withObj; rw [if_neg (by omega)]
 
 end Fbr.Srv
+
+namespace Fbr.Srv
+open Fbr.Wire
+
+/-- a name without NUL bytes followed by its terminator decodes to itself, whatever follows -/
+theorem cstr_name (name trail : Bytes) (h : ∀ b ∈ name, b ≠ 0) : cstr (name ++ 0 :: trail) = some name := by
+  unfold cstr
+  have hc : (name ++ 0 :: trail).contains 0 = true := by simp
+  rw [if_pos hc]
+  congr 1
+  induction name with
+  | nil => simp
+  | cons x xs ih =>
+    have hx : x ≠ 0 := h x (by simp)
+    have hxs : ∀ b ∈ xs, b ≠ 0 := fun b hb => h b (by simp [hb])
+    simp only [List.cons_append, List.takeWhile_cons]
+    have : (x != 0) = true := by simpa using hx
+    simp only [this, if_true]
+    rw [ih hxs (by simp)]
+
+theorem getBody_ok (hdrLen sub k : Nat) (r : Bytes) (hl : hdrLen = IN_HDR + sub + k) (hr : k ≤ r.length) :
+    getBody hdrLen sub r = .ok (r.take k, k) := by
+  unfold getBody
+  rw [if_neg (by omega)]
+  have : hdrLen - IN_HDR - sub = k := by omega
+  simp only [this]
+  rw [if_neg (by omega)]
+
+/-- the handler's view of `obj ++ name ++ NUL` when the header length is exact -/
+theorem named_ok (cfg : Cfg) (u : Nat) (calls0 : List Call) (hdrLen : Nat) (obj name : Bytes) (sub : Nat)
+    (k : Bytes → List Nat → Res) (hobj : obj.length = sub)
+    (hl : hdrLen = IN_HDR + sub + (name.length + 1)) (hn : ∀ b ∈ name, b ≠ 0) :
+    named cfg u calls0 hdrLen (obj ++ (name ++ [0])) sub k = k name [name.length + 1] := by
+  unfold named
+  have hd : (obj ++ (name ++ [0])).drop sub = name ++ [0] := by rw [← hobj]; simp
+  rw [hd, getBody_ok hdrLen sub (name.length + 1) _ hl (by simp)]
+  simp only
+  have ht : (name ++ [0]).take (name.length + 1) = name ++ [0] := by
+    rw [List.take_of_length_le (by simp)]
+  rw [ht, cstr_name name [] hn]
+
+/-- two NUL-terminated names one after the other -/
+theorem twoCstrs_ok (n1 n2 : Bytes) (h1 : ∀ b ∈ n1, b ≠ 0) (h2 : ∀ b ∈ n2, b ≠ 0) :
+    twoCstrs (n1 ++ 0 :: (n2 ++ [0])) = .ok (n1, n2) := by
+  unfold twoCstrs
+  have hc : (n1 ++ 0 :: (n2 ++ [0])).contains 0 = true := by simp
+  rw [if_pos hc]
+  have htw : (n1 ++ 0 :: (n2 ++ [0])).takeWhile (· != 0) = n1 := by
+    have := cstr_name n1 (n2 ++ [0]) h1
+    unfold cstr at this
+    rw [if_pos hc] at this
+    exact Option.some.inj this
+  simp only [htw]
+  have hlen : n1.length + 1 < (n1 ++ 0 :: (n2 ++ [0])).length := by simp
+  rw [if_pos hlen]
+  have hd : (n1 ++ 0 :: (n2 ++ [0])).drop (n1.length + 1) = n2 ++ [0] := by
+    rw [show n1 ++ 0 :: (n2 ++ [0]) = (n1 ++ [0]) ++ (n2 ++ [0]) by simp]
+    rw [show n1.length + 1 = (n1 ++ [0]).length by simp, List.drop_left]
+  rw [hd, cstr_name n2 [] h2]
+
+@[simp] theorem lookupReply_calls (cfg : Cfg) (u : Nat) (calls : List Call) (al : List Nat) (a : Ans) :
+    (lookupReply cfg u calls al a).calls = calls := by
+  unfold lookupReply
+  split
+  · split
+    · rfl
+    · exact finish_calls _ _ _ _ _ _
+  · exact finish_calls _ _ _ _ _ _
+
+@[simp] theorem readReply_calls (cfg : Cfg) (u : Nat) (calls : List Call) (a : Ans) :
+    (readReply cfg u calls a).calls = calls := by
+  unfold readReply
+  split
+  · split <;> rfl
+  · rfl
+  · rfl
+
+@[simp] theorem dirReply_calls (cfg : Cfg) (u : Nat) (calls : List Call) (size : Nat) (plus : Bool) (a : Ans) :
+    (dirReply cfg u calls size plus a).calls = calls := by
+  unfold dirReply
+  split
+  · split <;> rfl
+  · rfl
+  · rfl
+
+@[simp] theorem initReply_calls (cfg : Cfg) (u : Nat) (calls : List Call) (mn ra cap : Nat) (a : Ans) :
+    (initReply cfg u calls mn ra cap a).calls = calls := by
+  unfold initReply
+  split <;> rfl
+
+@[simp] theorem notifyReply_calls (cfg : Cfg) (u : Nat) (calls : List Call) (a : Ans) :
+    (notifyReply cfg u calls a).calls = calls := by
+  unfold notifyReply
+  split <;> rfl
+
+end Fbr.Srv
